@@ -342,9 +342,11 @@ def import_aliases(ctx, rule):
   for n_ in g_f.live_nodes():
     if n_.ast is None or n_.kind not in ('stmt', 'return'):
       continue
-    for _x, tmpl, ops in _fs(n_.ast):
-      if tmpl is not None and ' as ' in tmpl and any(u(o) == '%s.alias' % fm_.params[0] for o in ops):
-        alias_nodes.append(n_)
+    # a statement that puts the alias into the text (whatever the spelling: template, concatenation, list of words)
+    if any(isinstance(x_, ast.Attribute) and u(x_) == '%s.alias' % fm_.params[0] for x_ in ast.walk(n_.ast)) and \
+        any(isinstance(x_, ast.Constant) and isinstance(x_.value, str) and x_.value.strip(' {}') == 'as' or
+            (isinstance(x_, ast.Constant) and isinstance(x_.value, str) and ' as ' in x_.value) for x_ in ast.walk(n_.ast)):
+      alias_nodes.append(n_)
   ok_a = bool(alias_nodes)
   why_a = 'the formatter no longer prints ` as <alias>`'
   for n_ in alias_nodes:
@@ -367,6 +369,9 @@ def import_aliases(ctx, rule):
   g5, facts5 = std_facts(prog, ai)
   uq = [n for n in g5.live_nodes() if n.kind == 'stmt' and isinstance(n.ast, ast.Assign) and isinstance(n.ast.value, ast.Call)
         and prog.resolve_call(ai, n.ast.value) == 'config._uniquify_name']
+  if len(uq) == 1 and uq[0].ast.value.args and u(uq[0].ast.value.args[0]) == ai.params[1]:
+    raise AnalysisError('the name-uniquifying helper is handed the whole import statement (`%s`): its interface changed, the re-aliasing rule cannot be '
+                        'read off add_import' % u(uq[0].ast.value))
   ok = len(uq) == 1 and [u(expand_expr(facts5[uq[0].id], a)).replace(' ', '') for a in uq[0].ast.value.args] == ['statement.bound_name()', 'self.names']
   adds = [n for n in g5.live_nodes() if any(u(cc.func) == 'self.names.add' for cc in calls_of_node(n))]
   # the name reserved is the (possibly re-aliased) bound name: statement.bound_name() after the re-aliasing, or the unique name itself
